@@ -184,7 +184,7 @@ def apply_pairs(pre, pairs, own=None):
 class C05(Oracle):
     # reach probes that must not be stuck at zero (else the workload is not reaching what
     # the design says it reaches): the check then exits 2
-    required_probes = {"quick": ['second_different_formal_value_refused', 'same_formal_value_readded_noop', 'literal_entry_path', 'time_as_iso_string', 'set_time_iso_string', 'creation_conflict_refused', 'reference_as_record_object', 'subtype_factory'], "thorough": ['second_different_formal_value_refused', 'same_formal_value_readded_noop', 'literal_entry_path', 'time_as_iso_string', 'set_time_iso_string', 'creation_conflict_refused', 'reference_as_record_object', 'subtype_factory']}
+    required_probes = {"quick": ['second_different_formal_value_refused', 'same_formal_value_readded_noop', 'literal_entry_path', 'time_as_iso_string', 'set_time_iso_string', 'creation_conflict_refused', 'reference_as_record_object', 'subtype_factory', 'add_asserted_type_typed_literal'], "thorough": ['second_different_formal_value_refused', 'same_formal_value_readded_noop', 'literal_entry_path', 'time_as_iso_string', 'set_time_iso_string', 'creation_conflict_refused', 'reference_as_record_object', 'subtype_factory', 'add_asserted_type_typed_literal']}
     prop = "C05"
 
     def swarm(self, rng):
@@ -208,6 +208,7 @@ class C05(Oracle):
             "vias": {"new_record": 2, "factory": 3, "conv": 2},
             "multi_value": rng.choice([0.2, 0.6]),
             "p_subfactory": rng.choice([0.0, 0.3]),
+            "p_value_type": 0.35,  # add_asserted_type with ordinary values and typed literals (round 6)
         }
         return {"profile": prof, "steps": rng.randrange(8, 40), "p_formal_readd": rng.choice([0.1, 0.25])}
 
@@ -481,7 +482,10 @@ class C05(Oracle):
         self.count("transition_checks")
         ev = expected_value(w, pools.PROV_URI + "type", op[2])
         if ev is UNKNOWN:
+            self.count("transition_unmodelled")
             return
+        if op[2][0] == "lit" and op[2][2] is not None:
+            self.probe("add_asserted_type_typed_literal")
         status, states = apply_pairs(pre, [(pools.PROV_URI + "type", ev)])
         if out.status != "ok" or not matches(states[0], r):
             raise Violation("C05", "add_asserted_type", "state", {"operation": op, "outcome": out.summary()})
